@@ -72,6 +72,7 @@ func runMapProtocolOn(c *Ctx, prefix, pkgRel, namePfx string, full bool) {
 	R.Rule(mp.rule("amended-on-new-key"), "a new entry enters dirty only when amended is (made) true: fresh amended==true, or dirtyLocked() + read.Store(readOnly{m: read.m, amended: true})", 2)
 	R.Rule(mp.rule("promotion-pairing"), "publishing m.dirty as the read map is followed, before Unlock, by m.dirty = nil (and misses = 0)", 2)
 	R.Rule(mp.rule("readmap-immutable"), "every map write (m[k]=v, delete) in the package is to the dirty map, under mu - never to a map obtained from a readOnly", 4)
+	R.Rule(mp.rule("dirty-superset"), "a key is deleted from the dirty map only when the snapshot re-read under the same lock does not hold it (dirty keeps every non-expunged entry of the read map, so that a promotion loses no lock-free store)", 1)
 	R.Rule(mp.rule("range-promotes"), "Range: iterates without the lock over the snapshot (promoted first when amended); each value read through entry.load and skipped when deleted; a false result of the callback leaves the loop", 1)
 	R.Rule(mp.rule("no-callback-under-lock"), "no call of a function-typed parameter and no channel operation while mu is held", 8)
 	R.Rule(mp.rule("entry-tables"), "entry helpers: a value is returned only from a word found non-nil and not expunged; 'absent' only when the last loaded word is nil or expunged; success after a CAS only when that CAS succeeded", 5)
@@ -96,6 +97,50 @@ func runMapProtocolOn(c *Ctx, prefix, pkgRel, namePfx string, full bool) {
 	for _, fi := range c.P.FuncsOfPkg(mp.pkg) {
 		if strings.HasPrefix(fi.Name, mp.pfx+".(*Map).") || strings.HasPrefix(fi.Name, mp.pfx+".(*entry).") || strings.HasPrefix(fi.Name, mp.pfx+".(Map).") || strings.HasPrefix(fi.Name, mp.pfx+".(entry).") || fi.Name == mp.pfx+".newEntry" {
 			mp.funcs = append(mp.funcs, fi)
+		}
+	}
+	// encapsulation: the protocol rules below look at the map implementation only; that is the whole story only if
+	// nothing else in the package reaches into a Map, an entry or a read-only snapshot
+	if full {
+		R.Rule(mp.rule("encapsulation"), "no function of the package outside the map implementation (methods of Map and entry, newEntry) reads or writes a field of Map, entry or readOnly: everything else goes through the Map's methods", 20)
+		inImpl := map[*FuncInfo]bool{}
+		for _, fi := range mp.funcs {
+			inImpl[fi] = true
+		}
+		guarded := []*types.Var{mp.fMu, mp.fRead, mp.fDirty, mp.fMiss, mp.fP, mp.fROm, mp.fROam}
+		for _, fi := range c.P.FuncsOfPkg(mp.pkg) {
+			if inImpl[fi] || c.P.Skip[fi] {
+				continue
+			}
+			bad := ""
+			for _, fn := range append([]*ssa.Function{fi.SSA}, fi.Closures...) {
+				for _, b := range fn.Blocks {
+					for _, in := range b.Instrs {
+						var fld *types.Var
+						switch x := in.(type) {
+						case *ssa.FieldAddr:
+							if pt, isP := x.X.Type().Underlying().(*types.Pointer); isP {
+								if st, isS := pt.Elem().Underlying().(*types.Struct); isS {
+									fld = st.Field(x.Field)
+								}
+							}
+						case *ssa.Field:
+							if st, isS := x.X.Type().Underlying().(*types.Struct); isS {
+								fld = st.Field(x.Field)
+							}
+						}
+						for _, f := range guarded {
+							if fld != nil && sameField(fld, f) {
+								bad = f.Name()
+							}
+						}
+					}
+				}
+			}
+			o := R.Decide(bad == "", mp.rule("encapsulation"), fi.Name, "map-fields", c.pos(fi), "does not touch the Map's internals", "reads or writes the field "+bad+" of the map implementation from outside it: the locking, promotion and entry protocol rules do not cover this function, and what it sees there (tombstones, entries only in dirty) is not what the Map's methods report")
+			if bad != "" {
+				o.Breaks = "a data race with the lock-free paths, a promotion that leaves the published map writable, or a view of the map that disagrees with Load/Range"
+			}
 		}
 	}
 	for _, fi := range mp.funcs {
@@ -154,6 +199,7 @@ func runMapProtocolOn(c *Ctx, prefix, pkgRel, namePfx string, full bool) {
 	mp.amendedOnNewKey()
 	mp.promotionPairing()
 	mp.readmapImmutable()
+	mp.dirtySuperset()
 	if full {
 		mp.rangePromotes()
 	}
@@ -1429,6 +1475,79 @@ func (mp *mapProto) readmapImmutable() {
 			} else {
 				o := c.R.Refuted(rule, fi.Name, k, c.ipos(s.pos), "a map write whose target is not the (current) dirty map")
 				o.Breaks = "the immutable read map is mutated under lock-free readers"
+			}
+		}
+	}
+}
+
+// ---- dirty-superset ---------------------------------------------------------------------------
+
+// dirtySuperset: while a dirty map exists it holds every entry of the read map that is not expunged - that is what
+// makes a promotion lose nothing: a lock-free store into an entry reached through the read map (CAS nil->value, or a
+// swap of a live word) is a store into the next read map as well. So a key may be deleted from dirty only when it is
+// known, under the same lock, not to be in the read map: the fresh snapshot's lookup of that very key missed.
+func (mp *mapProto) dirtySuperset() {
+	c := mp.c
+	rule := mp.rule("dirty-superset")
+	for _, fi := range mp.funcs {
+		type st struct {
+			ok  bool
+			pos ssa.Instruction
+		}
+		sites := map[string]*st{}
+		var order []string
+		for _, p := range mp.paths[fi] {
+			snaps := mp.snapshotLoads(p)
+			for i := range p.Events {
+				e := &p.Events[i]
+				if e.Kind != "call" || e.Name != "builtin.delete" || len(e.Args) != 2 || !mp.isDirtyMap(p, e.Args[0]) {
+					continue
+				}
+				k := instrOrdinal(e.Instr)
+				s, ok := sites[k]
+				if !ok {
+					s = &st{ok: true, pos: e.Instr}
+					sites[k] = s
+					order = append(order, k)
+				}
+				_, lockIdx, _ := mp.heldAt(p, i)
+				good := false
+				for _, cd := range p.Conds {
+					if cd.NEv > i {
+						continue
+					}
+					t, pol := stripNot(cd.T, cd.Pol)
+					if pol || t.Op != "extract" || t.N != 1 || len(t.Args) != 1 || t.Args[0].Op != "lookup" || len(t.Args[0].Args) != 2 {
+						continue
+					}
+					lk := t.Args[0]
+					if lk.Args[1].Key() != e.Args[1].Key() {
+						continue
+					}
+					m := lk.Args[0]
+					if !(m.Op == "field" && sameField(m.Obj, mp.fROm)) {
+						continue
+					}
+					m.Walk(func(x *Term) bool {
+						if idx, ok := snaps[x.Key()]; ok && idx > lockIdx {
+							good = true
+						}
+						return true
+					})
+				}
+				if !good {
+					s.ok = false
+				}
+			}
+		}
+		sort.Strings(order)
+		for _, k := range order {
+			s := sites[k]
+			if s.ok {
+				c.R.Held(rule, fi.Name, k, c.ipos(s.pos), "the key deleted from dirty was looked up in the snapshot re-read under this lock and is not in the read map")
+			} else {
+				o := c.R.Refuted(rule, fi.Name, k, c.ipos(s.pos), "a key is deleted from the dirty map on a path that has not established, under this lock, that the read map does not hold it: its entry stays reachable through the read map, a lock-free store into it succeeds, and the next promotion publishes a map without the key")
+				o.Breaks = "a completed Store/LoadOrStore is lost at the next promotion"
 			}
 		}
 	}
